@@ -640,6 +640,19 @@ impl Ctx {
                         if Some(&b) != block.as_ref() {
                             note["read_differs"] = json!(true);
                         }
+                        // the block as read is verified once, per signer, before anything is changed: it must
+                        // verify (C09), and nothing of that verification may outlive it (no edit below may
+                        // profit from a signature having been accepted here)
+                        for sg in &b.signatures {
+                            let kid = crate::keys::kid_str(sg.key_id());
+                            let name = self.km.name_of(&kid);
+                            if name != kid {
+                                let ok = guarded(|| b.verify(1, [self.km.pk(&name)]).is_ok());
+                                if !matches!(ok, Ok(true)) {
+                                    note["untouched_rejected"] = json!(name);
+                                }
+                            }
+                        }
                         block = Some(b)
                     }
                     Err(e) => return json!({"out": "err", "note": {"read_failed": e.to_string()}}),
